@@ -185,7 +185,7 @@ func rewriteFile(path, rel string, p PkgSpec, counts map[string]int, constDone m
 		}
 		if p.Mutex && id.Name == "sync" {
 			switch se.Sel.Name {
-			case "Mutex", "RWMutex", "WaitGroup", "Once":
+			case "Mutex", "RWMutex":
 				id.Name = "vsync"
 				rw.used["vsync"] = true
 				rw.changed = true
@@ -244,7 +244,7 @@ func syncKind(s ast.Stmt) string {
 			}
 			if se, ok := x.Fun.(*ast.SelectorExpr); ok {
 				switch se.Sel.Name {
-				case "Lock", "RLock", "Unlock", "RUnlock":
+				case "Lock", "RLock":
 					if len(x.Args) == 0 {
 						kind = strings.ToLower(se.Sel.Name)
 					}
@@ -378,12 +378,26 @@ func (rw *rewriter) stmts(list []ast.Stmt, skip bool) []ast.Stmt {
 			continue
 		}
 
+		post := false
 		if rw.p.Yield && !skip {
 			if k := syncKind(s); k != "" {
 				out = append(out, rw.yieldStmt(s.Pos(), k))
+				// after an operation that may have blocked, yield again, so that only the one
+				// goroutine the scheduler resumed executes repository code
+				switch k {
+				case "recv", "select", "lock", "rlock", "wait", "send":
+					switch s.(type) {
+					case *ast.ReturnStmt, *ast.IfStmt, *ast.BranchStmt:
+					default:
+						post = true
+					}
+				}
 			}
 		}
 		out = append(out, s)
+		if post {
+			out = append(out, rw.yieldStmt(s.End(), "after"))
+		}
 	}
 	return out
 }
